@@ -401,7 +401,9 @@ func (x *X) loopCore(f *Frame, st *State, L *loopDesc) *State {
 	body := head.clone()
 	body.pc = c.define("pc", And(head.pc, cond))
 	c.cover(fmt.Sprintf("loop#L%d-body", L.ord), body.pc, x.pos(L.pos))
+	f.activeLoops = append(f.activeLoops, L) // ghost statements in the body may name this loop's itN / seqN
 	end := x.block(f, body, L.body.List)
+	f.activeLoops = f.activeLoops[:len(f.activeLoops)-1]
 	x.popTarget(f)
 	ends := append([]*State{}, tgt.conts...)
 	if end != nil {
@@ -520,7 +522,9 @@ func (x *X) dryIteration(f *Frame, s *State, L *loopDesc) {
 	b := s.clone()
 	b.pc = And(s.pc, cond)
 	tgt := x.pushTarget(f, L.label, true)
+	f.activeLoops = append(f.activeLoops, L)
 	end := x.block(f, b, L.body.List)
+	f.activeLoops = f.activeLoops[:len(f.activeLoops)-1]
 	x.popTarget(f)
 	ends := append([]*State{}, tgt.conts...)
 	if end != nil {
@@ -784,6 +788,7 @@ func (x *X) rangeMap(f *Frame, st *State, n *ast.RangeStmt, label string, mt *ty
 		}
 		if valObj != nil {
 			_, val := x.mapLoad(s, m, k)
+			x.wfValue(s, val) // values stored in maps are Go values (slice headers well formed)
 			x.bindRangeVar(f, s, valObj, n.Tok, val)
 		}
 	}
